@@ -44,7 +44,8 @@ Arr(s)  == [k |-> "array", nullable |-> FALSE, items |-> s]
 PropSchemas  == { Sc(k, n) : k \in {"string", "int64", "datetime", "any", "bool"}, n \in BOOLEAN } \cup { Arr(Sc("string", FALSE)), Arr(Sc("int64", FALSE)) }
 PropSchemas2 == { Sc("string", FALSE), Sc("int32", TRUE), Sc("double", FALSE), Arr(Sc("string", FALSE)) }
 P(name, s, r) == [name |-> name, schema |-> s, req |-> r]
-Addls == { [addlK |-> ""], [addlK |-> "any"], [addlK |-> "schema", addl |-> Sc("string", FALSE)], [addlK |-> "schema", addl |-> Sc("int64", FALSE)] }
+Addls == { [addlK |-> ""], [addlK |-> "any"], [addlK |-> "schema", addl |-> Sc("string", FALSE)], [addlK |-> "schema", addl |-> Sc("int64", FALSE)],
+           [addlK |-> "schema", addl |-> Sc("int64", TRUE)], [addlK |-> "schema", addl |-> Sc("string", TRUE)] }
 Obj(props, ad) == [k |-> "object", nullable |-> FALSE, props |-> props] @@ ad
 Objects == { Obj(<< >>, ad) : ad \in Addls }
            \cup { Obj(<< P("alpha", s, r) >>, ad) : s \in PropSchemas, r \in BOOLEAN, ad \in Addls }
@@ -66,7 +67,10 @@ Nested == { Obj(<< P("inner", x, r), P("list", Arr(x), FALSE) >>, [addlK |-> ""]
 \* properties that are a $ref to a nullable component (PoolNullStr : nullable string, PoolNullObj : nullable object)
 NullRefs == { Obj(<< P("owner", x, r), P("id", Sc("int64", FALSE), TRUE) >>, [addlK |-> ""]) : x \in { Ref("PoolNullStr"), Ref("PoolNullObj") }, r \in BOOLEAN }
             \cup { Arr(Ref("PoolNullStr")), Arr(Ref("PoolNullObj")) }
-Universe == NullRefs \cup Scalars \cup { Arr(s) : s \in Scalars } \cup Objects \cup AllOfs \cup OneOfs \cup Nested
+\* a component that is nothing but a $ref to another component (schema alias), and properties / items through it
+Aliases == { Ref("PoolA"), Ref("PoolNames"), Obj(<< P("via", Ref("PoolAliasA"), TRUE), P("names", Ref("PoolNames"), TRUE), P("more", Ref("PoolNames"), FALSE) >>, [addlK |-> ""]),
+             Arr(Ref("PoolAliasA")) }
+Universe == Aliases \cup NullRefs \cup Scalars \cup { Arr(s) : s \in Scalars } \cup Objects \cup AllOfs \cup OneOfs \cup Nested
 
 EmitSchema(s) == st = "pick" /\ Emit /\ PrintT(ToJson([schema |-> s])) /\ UNCHANGED vars
 
